@@ -33,6 +33,16 @@ MANIFEST = {
 }
 
 
+def bounded(tier, seed, fallback_for):
+    from pyvc import driver
+    return [driver.run_harness(ID, "h_report.py", [ID, tier, str(seed)], "rendered-summaries:" + ID,
+                               "60 generated codebases (thorough 800) of 1..4 files with 0..4 functions of boundary lengths, summary rendered after every "
+                               "add_file / aggregate step; 6 hand-picked ones (hard-to-maintain exactly / just above / just below 20 %, a tiny "
+                               "share next to a huge one, files added after aggregate, repeated aggregate)",
+                               "percentages and verdict parsed from the text and Markdown summaries of the real print_summary compared with the "
+                               "statement evaluated on the lengths that were added")]
+
+
 def lemmas(eng):
     """fdiv-gap: for integers 0 < t < 2^40 and 100000*a > t the exact quotient q (q*t == a) is at least
     1/100000 + 1/(100000*2^40). Used as an axiom on the uninterpreted division; proved here in nonlinear arithmetic."""
